@@ -197,6 +197,14 @@ def iface_term(i, methods, src):
 LOWER = [("É", "é"), ("Ω", "ω"), ("Ñ", "ñ"), ("Δ", "δ")]
 
 
+def digest(x):
+    """djb2 (32 bit) of the UTF-8 bytes, as Harness/C14.v digest"""
+    h = 5381
+    for b in (x.encode("utf-8", "surrogateescape") if isinstance(x, str) else x):
+        h = (h * 33 + b) & 0xFFFFFFFF
+    return h
+
+
 def names_table(m):
     t = [(e["path"], e["name"]) for e in m["ext"]] + [(s["path"], s["name"]) for s in m["std"]] + [("unsafe", "unsafe")]
     t += [(s["path"], s["name"]) for s in m["srcs"]]
@@ -212,7 +220,7 @@ def case_term(m, k, placement, obs):
         coq_list("(%s, %s)" % (cb(a), cb(b)) for a, b in LOWER),
         coq_list("(%s, %s)" % (cb(b), cb(a)) for a, b in LOWER),
         coq_list(iface_term(i, method_set(i, known_ifaces(dict(m, **s))), s["path"]) for i in selected(s, placement)),
-        coq_list(cb(x) for x in obs)))
+        coq_list("%d%%N" % digest(x) for x in obs)))
 
 
 # --------------------------------------------------------------------------------------
@@ -507,9 +515,11 @@ COQ_MODS = "Gen.Alloc Gen.Types Gen.Render Harness.C14"
 
 def coq_strlist(ctx, term, name="show"):
     """Evaluate a Gallina [list str] and return it as a list of Python strings."""
-    out = coq_show(ctx, COQ_MODS, "map (fun s => String.string_of_list_byte (hex s)) (%s)" % term, name=name)
-    if out.startswith("coqc failed"):
-        raise RuntimeError(out)
+    rc, out, err = coq_eval(ctx, name, "From Mk Require Import Lib.Bytes %s.\nOpen Scope string_scope." % COQ_MODS, "",
+                            "Definition R := Eval vm_compute in (map (fun s => String.string_of_list_byte (hex s)) (%s)).\nPrint R." % term)
+    if rc != 0:
+        raise RuntimeError("coqc failed: " + err[-1500:])
+    out = " ".join(out.split())
     body = out[out.index("=") + 1: out.rindex(":")]
     return [bytes.fromhex(h).decode("utf-8", "replace") for h in re.findall(r'"([0-9a-f]*)"', body)]
 
@@ -525,3 +535,13 @@ def explain_mismatch(ctx, term, r):
             ctxt = [t for _, t in r["raw"][max(0, j - 6):j]]
             return {"index": j, "observed_text": r["raw"][j] if j < len(r["raw"]) else None, "observed": b, "model": a, "preceding": ctxt}
     return None
+
+
+def reemit(ctx, m, root, placements=PLACEMENTS):
+    """Runs the re-emission probe and writes the harness' assertion files."""
+    rc, log = run_mockery(ctx, root, config(m, root, PROBES / "c14_reemit.templ", REEMIT_FILES, placements), "reemit")
+    for k, s in enumerate(m["srcs"]):
+        for pl in placements:
+            if selected(s, pl) and out_path(m, k, root, pl, REEMIT_FILES).exists():
+                out_path(m, k, root, pl, ASSERT_FILES).write_text(assertion_file(m, k, pl))
+    return rc, log
